@@ -124,14 +124,14 @@ CURATED = [
 ]
 
 
-def consts(inputs_tla, free, caps, chunks, cap_pats, chunk_pats, buf=1000, max_intr=0):
+def consts(inputs_tla, free, caps, chunks, cap_pats, chunk_pats, buf=1000, max_intr=0, max_fail=0):
     return {"Inputs": inputs_tla, "FreeMode": "TRUE" if free else "FALSE",
             "CapSizes": core.tla_set(caps), "ChunkSizes": core.tla_set(chunks),
-            "CapPatterns": tla_pats(cap_pats), "ChunkPatterns": tla_pats(chunk_pats), "Buf": str(buf), "MaxIntr": str(max_intr)}
+            "CapPatterns": tla_pats(cap_pats), "ChunkPatterns": tla_pats(chunk_pats), "Buf": str(buf), "MaxIntr": str(max_intr), "MaxFail": str(max_fail)}
 
 
 SEQ = ("Inputs", "CapPatterns", "ChunkPatterns", "CapSizes", "ChunkSizes")
-INVS = ["InputsOK", "TypeOK", "OutputOK", "NoSpuriousError", "Progress", "Complete", "BufInv", "CallBound"]
+INVS = ["InputsOK", "TypeOK", "OutputOK", "NoSpuriousError", "ErrorNotLost", "Progress", "Complete", "BufInv", "CallBound"]
 WITNESSES = ["WitnessSplitOperand", "WitnessNormAtExit", "WitnessPartial32", "WitnessJccAcrossCalls"]
 
 
@@ -199,15 +199,15 @@ def run(ctx, tier, rnd, classes=None):
             pairs.append((x, nm))
     caps = [1, 2, 3, 5, 9] if quick else [1, 2, 3, 4, 5, 9]
     chunks = [1, 3, 9] if quick else [1, 2, 3, 4, 5, 9]
-    cst = consts(tla_inputs(pairs), True, caps, chunks, [[1]], [[1]], buf=6, max_intr=1)
+    cst = consts(tla_inputs(pairs), True, caps, chunks, [[1]], [[1]], buf=6, max_intr=1, max_fail=1)
     r = tlc(cst, INVS, workers=6 if quick else 10, timeout=600 if quick else 2400)
     ctx.note_tlc("Bcj2Decoder free mode", r)
-    log(f"[bcj2 M] {len(pairs)} abstract inputs, free destination / delivery sizes, 1 Interrupted: {r}")
+    log(f"[bcj2 M] {len(pairs)} abstract inputs, free destination / delivery sizes, 1 Interrupted + 1 other source error: {r}")
     if not r.ok:
         # the design spec must hold; a counter-example here is a finding about the DESIGN the code implements and is
         # replayed below only if it can be concretised - report as tool error so that it is looked at
         raise ToolError(f"TLC reports {r.violated} for the BCJ2 decoder design:\n" + "\n".join(f"  {s['n']}: {s['action']}" for s in r.trace[-12:]))
-    for a in ("CallP", "Run", "RefillP", "IntrP"):
+    for a in ("Call", "DoRun", "Refill", "Interrupt", "Fail"):
         if a in r.coverage and r.coverage[a][0] == 0:
             raise ToolError(f"vacuous BCJ2 model run: action {a} never taken")
     # witnesses: each scenario class must be reachable (one tiny run per witness, stops at the first hit)
@@ -281,7 +281,9 @@ def run(ctx, tier, rnd, classes=None):
         caps_ = [rnd.choice([1, 2, 3, 4, 5, big]) for _ in range(rnd.randint(1, 4))]
         chs = [[rnd.choice([1, 2, 3, 4, 5, 7, 64, 1 << 20]) for _ in range(rnd.randint(1, 3))] for _ in range(4)]
         intr = sorted(rnd.sample(range(0, 60), rnd.randint(0, 4))) if i % 2 else []
-        tcases.append({"id": f"t{i}", "orig_hex": x["orig"].hex(), "flags": x["flags"], "caps": caps_, "chunks": chs, "intr": intr, "trace": True})
+        fail = sorted(rnd.sample(range(0, 80), rnd.randint(1, 3))) if i % 4 == 3 else []
+        tcases.append({"id": f"t{i}", "orig_hex": x["orig"].hex(), "flags": x["flags"], "caps": caps_, "chunks": chs, "intr": intr,
+                       "fail": [f for f in fail if f not in intr], "trace": True})
     tres = dlib.run_cases("vh_bcj2", tcases, timeout=1800)
     events, tp = [], []
     for i, (x, c, o) in enumerate(zip(tin, tcases, tres)):
@@ -295,7 +297,7 @@ def run(ctx, tier, rnd, classes=None):
         events += o["events"]
     accepted = 0
     if tp:
-        cst = consts(tla_inputs(tp), True, [1], [1], [[1]], [[1]], buf=1 << 18, max_intr=1 << 20)
+        cst = consts(tla_inputs(tp), True, [1], [1], [[1]], [[1]], buf=1 << 18, max_intr=1 << 20, max_fail=1 << 20)
         ok, reached, total, r = core.validate_events("Trace_Bcj2Decoder", cst, events, invariants=("Track", "TraceInv"), timeout=1800, seq_consts=SEQ)
         ctx.note_tlc("trace Bcj2Decoder", r)
         if ok:
@@ -320,6 +322,20 @@ def judge(ctx, c, o, base):
         ctx.violation(f"bcj2 (exact script): panic {o['panic']} with destination sizes {c['caps']} and source deliveries {c['chunks']}",
                       dict(base, **{"class": "panic"}), rep)
         return True
+    if c.get("fail"):
+        # a non-retryable source error was injected: the run either recovers and delivers everything, or ends with
+        # that error after a correct prefix - never wrong bytes, never silently short, never stuck
+        hard_seen = any(k.get("err") == "hard" for k in o.get("calls", []))
+        if o.get("prefix_ok") is not True or o.get("stuck") or (o.get("rt_ok") is not True and not hard_seen):
+            ctx.violation(f"bcj2 (exact script): with source errors at reads {c['fail']} (destination sizes {c['caps']}, deliveries {c['chunks']}) the reader "
+                          f"{'delivers wrong bytes' if o.get('prefix_ok') is not True else 'makes no progress' if o.get('stuck') else 'ends short without reporting the error'}: "
+                          f"got {o.get('got', o.get('n'))} of {o.get('n')} bytes", dict(base, **{"class": "bcj2_source_error"}), rep)
+            return True
+        # (an error that arrived while the last bytes were being decoded is owed to the caller: the call after the
+        # end then reports it instead of Ok(0))
+        if o.get("rt_ok") is True and o.get("after") not in ("ok0", "err:hard"):
+            return _after_bad(ctx, c, o, base, rep)
+        return False
     if o.get("rt_ok") is not True or o.get("stuck"):
         errs = [k["err"] for k in o.get("calls", []) if k.get("err") not in (None, "", "intr")]
         ctx.violation(f"bcj2 (exact script): BCJ2Reader does not reconstruct the input with destination sizes {c['caps']}, source deliveries {c['chunks']}, "
@@ -331,6 +347,12 @@ def judge(ctx, c, o, base):
                       dict(base, **{"class": "bcj2_after_end"}), rep)
         return True
     return False
+
+
+def _after_bad(ctx, c, o, base, rep):
+    ctx.violation(f"bcj2 (exact script): read() after the end returned {o.get('after')} (destination sizes {c['caps']})",
+                  dict(base, **{"class": "bcj2_after_end"}), rep)
+    return True
 
 
 def replay(ctx, case):
